@@ -165,6 +165,8 @@ var farFuture = []int64{10413792000, 16725225600, 32503680000, 253402300799, (1 
 
 var winOffsets = []int64{3600, 86400, 365 * 86400, 100 * 365 * 86400, -3600, -86400, -365 * 86400, -100 * 365 * 86400}
 
+var otherLocations = []*time.Location{time.FixedZone("UTC-2", -2*3600), time.FixedZone("UTC+14", 14*3600), time.FixedZone("UTC-12", -12*3600), time.FixedZone("UTC+5:45", 5*3600+45*60), time.FixedZone("UTC+0:00:01", 1), time.Local}
+
 type validAt interface {
 	IsValidAt(time.Time) bool
 	IsValidNow() bool
@@ -226,6 +228,13 @@ func runWin(c *h.Ctx, w WinCase) {
 		kind := "delegation"
 		if w.Invocation {
 			kind = "invocation"
+		}
+		// the same INSTANT named in another location (a caller's time.Time carries a zone; time.Now() carries the
+		// process's): one instant, one verdict
+		for _, loc := range otherLocations {
+			if q := p.In(loc); tk.IsValidAt(q) != got {
+				c.Fail("C04/window/verdict-depends-on-location/"+kind, "IsValidAt(%v)=%v, IsValidAt of the same instant written as %v = %v; bounds [%v, %v]", p.UTC(), got, q, !got, nbf, exp)
+			}
 		}
 		switch {
 		case inside && !got:
@@ -453,3 +462,53 @@ func TestConcurrentDecode(t *testing.T) { concWinProp.Check(t) }
 // the same under the race detector (slower, so it explores fewer interleavings, but it sees unsynchronised
 // accesses that happen not to corrupt anything in this run)
 func TestConcurrentDecodeRace(t *testing.T) { concWinProp.Check(t) }
+
+
+// TestOtherTimeZones: the chain check in a process whose local time zone is not UTC (time.Now() carries time.Local):
+// twelve hours west to fourteen hours east, with chains of 1..3 delegations in which one token - each position in
+// turn - expired or becomes active 30 minutes, 2, 6 and 13 hours from now, and the valid chains next to them as control
+// for the harness itself. What time it is does not depend on where the process runs.
+func TestOtherTimeZones(t *testing.T) {
+	saved := time.Local
+	defer func() { time.Local = saved }()
+	n := 0
+	for _, zone := range []int{-12 * 3600, -7 * 3600, -2 * 3600, 3600, 5*3600 + 45*60, 14 * 3600} {
+		time.Local = time.FixedZone(fmt.Sprintf("verif%+d", zone), zone)
+		for length := 1; length <= 3; length++ {
+			for pos := 0; pos <= length; pos++ {
+				for _, off := range []int64{1800, 2 * 3600, 6 * 3600, 13 * 3600} {
+					for _, kind := range []string{"expired", "inactive", "valid-exp", "valid-nbf"} {
+						if pos == 0 && (kind == "inactive" || kind == "valid-nbf") {
+							continue // invocations have no not-before
+						}
+						var cs chain.Case
+						cs.Inv = chain.Inv{Iss: 0, Sub: length % chain.NPrincipals, Aud: -1, NonceLen: 12, Cmd: "/foo"}
+						for i := 0; i < length; i++ {
+							iss := (i + 1) % chain.NPrincipals
+							if i == length-1 {
+								iss = cs.Inv.Sub
+							}
+							cs.Links = append(cs.Links, chain.Link{Iss: iss, Aud: i % chain.NPrincipals, Sub: cs.Inv.Sub, Cmd: "/foo", Nonce: byte(i)})
+						}
+						v := off
+						if kind == "expired" || kind == "valid-nbf" {
+							v = -off
+						}
+						switch {
+						case pos == 0:
+							cs.Inv.Exp = &v
+						case kind == "expired" || kind == "valid-exp":
+							cs.Links[pos-1].Exp = &v
+						default:
+							cs.Links[pos-1].Nbf = &v
+						}
+						cs.Dev = []string{fmt.Sprintf("%s@%d/%d zone%+d", kind, pos, length, zone)}
+						chainProp.One(t, cs)
+						n++
+					}
+				}
+			}
+		}
+	}
+	P.SetExtra("other_time_zone_chains", n)
+}
